@@ -8,3 +8,7 @@ if ! "$PY" -c "import hypothesis" 2>/dev/null; then
 fi
 "$PY" -c "import hypothesis, numpy, scipy, h5py, anndata; print('hypothesis', hypothesis.__version__)"
 "$PY" -m compileall -q "$HERE/pbt" >/dev/null
+# optional coverage-guided tier: atheris for the repository's interpreter (python 3.12), into /verif/.deps
+if ! PYTHONPATH="$HERE/.deps" "$PY" -c "import atheris" 2>/dev/null; then
+  /venv/bin/pip install -q --no-index --find-links /opt/veriftools/wheels --target "$HERE/.deps" atheris || echo "atheris not installed (coverage-guided tier will be skipped)"
+fi
